@@ -56,6 +56,15 @@ T("C19", f"{GEN}: every small matrix x every points array of ndim 1,2,3; direct 
 T("C20", f"{GEN}: every variable list x dictionary x default x dtype; every context/sub-list/mask; every 2x2 system",
   "Every case inside the bound is compared with the statement taken literally.",
   "trusted: the literal oracle in c20.py", "4/C20")
+T("C14", f"{GEN}: every 1..2(3)-rule configurator x every priority dictionary x ALL feasible 0/1 points; objective vs lexicographic key (all pairs by one sort)",
+  "For every configurator and dictionary inside the bound the captured objective is checked against the lexicographic key on every pair of feasible points.",
+  "trusted: lex_key() in c14.py, brute-force feasible set; -2 tags read from the objects and cross-checked with the rule definitions", "4/C14")
+T("C15", f"{GEN}: every model/configurator x objective alphabet x solver answers (exact, tagged, None, raises) x flags; alignment by id, optimality",
+  "Every combination inside the bound is executed with capture solvers; what the callable receives and what is reported back are compared column by column.",
+  "trusted: brute-force exact solver in mc/cfgspace.py", "4/C15")
+T("C16", f"{GEN}: JSON round-trip edge (twice) from every raw / connective / configurator state; truth tables, ids, defaults, polyhedron modulo generated names",
+  "Every state inside the bound is serialised, passed through json.dumps/loads, reloaded and compared with the reference truth of the original on all assignments.",
+  "trusted: mc/ref.py; canonical renaming of generated ids in c16.py", "4/C16")
 
 
 def build():
